@@ -6,10 +6,14 @@ object per input line, one JSON object per output line.
         the name tables and reserved names the driver runs with
   {"op":"reset","slot":k,"store":[[name,pol],…]}
         slot k := initialize_tracking_structures on that shared store
-  {"op":"scan","from":k,"to":m,"snap":[[file,mtime,PARSE],…]}
-        slot m := scan_policies() applied to slot k;  PARSE = {"ok":[[name,pol],…]} | "rejected" | {"crash":"Cls"}
-        answer {"store":[[name,pol],…],"exn":null|"…","map":[[name,file],…],"cache":[[name,[[file,pol],…]],…],
-                "timestamps":[[file,t],…]}   (dict order; cache stacks top first)
+  {"op":"scan","from":k,"to":m,"snap":[[file,mtime,CONTENT],…],"full":true?}
+        slot m := scan_policies() applied to slot k.  CONTENT says what read_policy_from_file does on the file:
+          {"ok":[[name,pol],…]} | "rejected" | {"crash":"Cls"}      given outright (pol = number < 1000000), or
+          {"doc":DOC} | {"unparsable":true}                         computed by the parser model (readPolicy);
+        a parsed policy value is interned as a token ≥ 1000000 and printed back as the value itself.
+        answer {"store":[[name,pol|VALUE],…],"exn":null|"…"} and with "full" also
+               "map":[[name,file],…],"cache":[[name,[[file,pol],…]],…],"timestamps":[[file,t],…]
+               (dict order; cache stacks top first)
   {"op":"read","doc":DOC}  |  {"op":"read","unparsable":true}
         read_policy_from_file on a document json.loads accepts / on a text it refuses.
         DOC encodes a JSON value keeping object key order:
@@ -39,20 +43,12 @@ def tables : NameTables :=
     permissions := permissionNames }
 def reserved : List Mon.Name := Gen.reservedPolicies
 
-def pParse (j : Json) : P Parse :=
-  match j with
-  | .str "rejected" => pure .rejected
-  | .str s => throw s!"parse result {s}"
-  | _ =>
-    match j.getObjVal? "ok", j.getObjVal? "crash" with
-    | .ok d, _ => .ok <$> listOf (pair asStr asNat) d
-    | _, .ok c => .crash <$> asStr c
-    | _, _ => throw s!"parse result {j.compress}"
-
-def pSnap (j : Json) : P DirSnapshot := listOf (fun row => do
-  let a ← asArr row
-  if a.size != 3 then throw s!"snapshot row {row.compress}"
-  pure (← asStr a[0]!, ← asNat a[1]!, ← pParse a[2]!)) j
+def jPairs {α β} (f : α → Json) (g : β → Json) (l : List (α × β)) : Json :=
+  Json.arr (l.map (fun p => Json.arr #[f p.1, g p.2])).toArray
+def jNat (n : Nat) : Json := Json.num n
+def jOpt {α} (f : α → Json) : Option α → Json
+  | none => Json.null
+  | some a => f a
 
 partial def pDoc (j : Json) : P J :=
   match j with
@@ -68,12 +64,61 @@ partial def pDoc (j : Json) : P J :=
     | .ok kvs => .obj <$> listOf (pair asStr pDoc) kvs
     | .error _ => throw s!"object encoding {j.compress}"
 
-def jPairs {α β} (f : α → Json) (g : β → Json) (l : List (α × β)) : Json :=
-  Json.arr (l.map (fun p => Json.arr #[f p.1, g p.2])).toArray
-def jNat (n : Nat) : Json := Json.num n
-def jOpt {α} (f : α → Json) : Option α → Json
-  | none => Json.null
-  | some a => f a
+
+def jTbl (t : ObjTbl) : Json := jPairs Json.str (jPairs Json.str Json.str) t
+def jPolicyVal (v : PolicyVal) : Json :=
+  Json.mkObj [("preset", jOpt jTbl v.preset), ("groups", jOpt (jPairs Json.str jTbl) v.groups)]
+
+/-- interning table of parsed policy values: token = 1000000 + index -/
+abbrev Pols := Array (String × Json)
+def tokBase : Nat := 1000000
+
+def intern (ps : Pols) (v : PolicyVal) : Pols × Nat :=
+  let j := jPolicyVal v
+  let key := j.compress
+  match ps.findIdx? (fun e => e.1 == key) with
+  | some i => (ps, tokBase + i)
+  | none => (ps.push (key, j), tokBase + ps.size)
+
+def internAll (ps : Pols) (l : List (String × PolicyVal)) : Pols × List (Mon.Name × PolId) :=
+  l.foldl (fun (acc : Pols × List (Mon.Name × PolId)) e =>
+    let (ps', t) := intern acc.1 e.2
+    (ps', acc.2 ++ [(e.1, t)])) (ps, [])
+
+def pParse (ps : Pols) (j : Json) : P (Pols × Parse) :=
+  match j with
+  | .str "rejected" => pure (ps, .rejected)
+  | .str s => throw s!"content {s}"
+  | _ =>
+    match j.getObjVal? "ok", j.getObjVal? "crash", j.getObjVal? "doc", j.getObjVal? "unparsable" with
+    | .ok d, .error _, .error _, .error _ => do
+      let l ← listOf (pair asStr asNat) d
+      if l.any (fun e => e.2 ≥ tokBase) then throw "explicit policy tokens must be < 1000000"
+      pure (ps, .ok l)
+    | .error _, .ok c, .error _, .error _ => do pure (ps, .crash (← asStr c))
+    | .error _, .error _, d, u => do
+      let doc ← match u, d with
+        | .ok (.bool true), .error _ => pure none
+        | .error _, .ok d => some <$> pDoc d
+        | _, _ => throw s!"content {j.compress}"
+      match readPolicy tables doc with
+      | .ok r => let (ps', l) := internAll ps r; pure (ps', .ok l)
+      | .error .reject => pure (ps, .rejected)
+      | .error .attributeError => pure (ps, .crash "AttributeError")
+      | .error .keyError => pure (ps, .crash "KeyError")
+    | _, _, _, _ => throw s!"content {j.compress}"
+
+def pSnap (ps : Pols) (j : Json) : P (Pols × DirSnapshot) := do
+  let rows ← asArr j
+  let mut ps := ps
+  let mut out : DirSnapshot := []
+  for row in rows do
+    let a ← asArr row
+    if a.size != 3 then throw s!"snapshot row {row.compress}"
+    let (ps', pr) ← pParse ps a[2]!
+    ps := ps'
+    out := out ++ [(← asStr a[0]!, ← asNat a[1]!, pr)]
+  pure (ps, out)
 
 def jExn : Exn → Json
   | .parser c => Json.str s!"parser:{c}"
@@ -81,42 +126,50 @@ def jExn : Exn → Json
   | .attributeError => Json.str "AttributeError"
   | .modelGap => Json.str "model-gap"
 
-def jState (s : MonState) (e : Option Exn) : Json :=
-  Json.mkObj [("store", jPairs Json.str jNat s.store), ("exn", jOpt jExn e),
-    ("map", jPairs Json.str Json.str s.map),
-    ("cache", jPairs Json.str (fun c => Json.arr (c.map (fun e => Json.arr #[Json.str e.file, jNat e.pol])).toArray) s.cache),
-    ("timestamps", jPairs Json.str jNat s.timestamps)]
+structure DState where
+  slots : Array MonState
+  pols : Pols
 
-def jTbl (t : ObjTbl) : Json := jPairs Json.str (jPairs Json.str Json.str) t
-def jPolicyVal (v : PolicyVal) : Json :=
-  Json.mkObj [("preset", jOpt jTbl v.preset), ("groups", jOpt (jPairs Json.str jTbl) v.groups)]
+def jPol (ps : Pols) (t : PolId) : Json :=
+  if t ≥ tokBase then (match ps[t - tokBase]? with | some e => e.2 | none => jNat t) else jNat t
 
-def step (slots : Array MonState) (line : String) : Array MonState × String :=
+def jState (ps : Pols) (s : MonState) (e : Option Exn) (full : Bool) : Json :=
+  let base := [("store", jPairs Json.str (jPol ps) s.store), ("exn", jOpt jExn e)]
+  if full then
+    Json.mkObj (base ++ [("map", jPairs Json.str Json.str s.map),
+      ("cache", jPairs Json.str (fun c => Json.arr (c.map (fun e => Json.arr #[Json.str e.file, jPol ps e.pol])).toArray) s.cache),
+      ("timestamps", jPairs Json.str jNat s.timestamps)])
+  else Json.mkObj base
+
+def setSlot (slots : Array MonState) (k : Nat) (s : MonState) : Array MonState :=
+  if k < slots.size then slots.set! k s else (slots ++ Array.replicate (k + 1 - slots.size) s)
+
+def step (st : DState) (line : String) : DState × String :=
   match Json.parse line with
-  | .error e => (slots, s!"bad-op json {e}")
+  | .error e => (st, s!"bad-op json {e}")
   | .ok j =>
-    let r : P (Array MonState × Json) := do
+    let r : P (DState × Json) := do
       match (← asStr (jget j "op")) with
-      | "tables" => pure (slots, Json.mkObj [("objectTypes", Json.arr (tables.objectTypes.map Json.str).toArray),
+      | "tables" => pure (st, Json.mkObj [("objectTypes", Json.arr (tables.objectTypes.map Json.str).toArray),
           ("operations", Json.arr (tables.operations.map Json.str).toArray),
           ("permissions", Json.arr (tables.permissions.map Json.str).toArray),
           ("reserved", Json.arr (reserved.map Json.str).toArray)])
       | "reset" => do
         let k ← asNat (jget j "slot")
-        let st ← listOf (pair asStr asNat) (jget j "store")
-        let s := MonState.init reserved st
-        let slots := if k < slots.size then slots.set! k s else (slots ++ Array.replicate (k + 1 - slots.size) s)
-        pure (slots, jState s none)
+        let store ← listOf (pair asStr asNat) (jget j "store")
+        if store.any (fun e => e.2 ≥ tokBase) then throw "explicit policy tokens must be < 1000000"
+        let s := MonState.init reserved store
+        pure ({ st with slots := setSlot st.slots k s }, jState st.pols s none true)
       | "scan" => do
         let k ← asNat (jget j "from")
         let m ← asNat (jget j "to")
-        let snap ← pSnap (jget j "snap")
-        if k ≥ slots.size then throw s!"slot {k} is empty"
-        let (s', e) := match scanE reserved slots[k]! snap with
+        let full := (jget j "full") == Json.bool true
+        let (ps, snap) ← pSnap st.pols (jget j "snap")
+        if k ≥ st.slots.size then throw s!"slot {k} is empty"
+        let (s', e) := match scanE reserved st.slots[k]! snap with
           | .ok s' => (s', none)
           | .error (s', e) => (s', some e)
-        let slots := if m < slots.size then slots.set! m s' else (slots ++ Array.replicate (m + 1 - slots.size) s')
-        pure (slots, jState s' e)
+        pure ({ slots := setSlot st.slots m s', pols := ps }, jState ps s' e full)
       | "read" => do
         let doc ← match j.getObjVal? "unparsable", j.getObjVal? "doc" with
           | .ok (.bool true), .error _ => pure none
@@ -127,13 +180,13 @@ def step (slots : Array MonState) (line : String) : Array MonState × String :=
           | .error .reject => Json.mkObj [("reject", true)]
           | .error .attributeError => Json.mkObj [("crash", "AttributeError")]
           | .error .keyError => Json.mkObj [("crash", "KeyError")]
-        pure (slots, out)
+        pure (st, out)
       | c => throw s!"op {c}"
     match r with
     | .ok (s', out) => (s', out.compress)
-    | .error e => (slots, s!"bad-op {e}")
+    | .error e => (st, s!"bad-op {e}")
 
-partial def loop (h : IO.FS.Stream) (out : IO.FS.Stream) (s : Array MonState) : IO Unit := do
+partial def loop (h : IO.FS.Stream) (out : IO.FS.Stream) (s : DState) : IO Unit := do
   let line ← h.getLine
   if line.isEmpty then return ()
   let (s', o) := step s line
@@ -141,4 +194,4 @@ partial def loop (h : IO.FS.Stream) (out : IO.FS.Stream) (s : Array MonState) : 
   loop h out s'
 
 def main : IO Unit := do
-  loop (← IO.getStdin) (← IO.getStdout) #[]
+  loop (← IO.getStdin) (← IO.getStdout) { slots := #[], pols := #[] }
